@@ -28,8 +28,8 @@ def C(hs, cancellable, cancels, reader=False, writer=False, closer="none", peer=
 
 
 def process_sets(quick):
-    """Bounded process sets explored exhaustively (measured: 25k-56k distinct states each for the quick six,
-    0.3-1.5M for the thorough reader/writer/three-handshaker sets; the full set h1,h2,reader,writer,Close has 7.6M
+    """Bounded process sets explored exhaustively (measured: quick four together ~65k distinct states; thorough adds
+    25k-56k two-handshaker sets and 0.3-1.5M reader/writer/three-handshaker sets; the full set h1,h2,reader,writer,Close has 7.6M
     states and three handshakers with two cancels and Close 7.0M: both were run once by hand, no violation)."""
     if quick:
         # the three shapes that matter most, each small (a few thousand to ~35k states), plus one stalling peer
@@ -500,7 +500,8 @@ def make_canaries(good):
         r, k, n = f
         c = copy.deepcopy(r); c["ev"][k][n]["closed"] = not c["ev"][k][n]["closed"]
         out.append(("final.closed flipped", c))
-    # (e) final `complete` flipped
+    # (e) final `complete` flipped, in a run where a handshaker got nil (otherwise both values can be legitimate)
+    f = find(lambda r, k, e: e["ev"] == "final" and any(x["ev"] == "ret" and x["isnil"] for h in ("h1", "h2") for x in r["ev"].get(h, [])))
     if f:
         r, k, n = f
         c = copy.deepcopy(r); c["ev"][k][n]["complete"] = not c["ev"][k][n]["complete"]
